@@ -64,14 +64,14 @@ func ZZ_C28_bookkeeping() {
 	tx := &zzStTx{typ: common2.ReturnDepositCoin, id: common.Uint256{0xD5}}
 	tx.progs = []*pg.Program{{Code: append(append([]byte{33}, key...), common.STANDARD), Parameter: []byte{}}}
 	var in, change common.Fixed64
-	for i := 0; i < nd.Choose("inputs", 2)+1; i++ {
+	for i, zzn := 0, nd.Choose("inputs", 2)+1; i < zzn; i++ {
 		ip := &common2.Input{Previous: common2.OutPoint{TxID: common.Uint256{0xA0}, Index: uint16(i)}}
 		v := zzStAmount("recordedDepositOutput")
 		s.DepositOutputs[ip.ReferKey()] = v
 		in += v
 		tx.ins = append(tx.ins, ip)
 	}
-	for i := 0; i < nd.Choose("outputs", 2+nd.Tier()); i++ {
+	for i, zzn := 0, nd.Choose("outputs", 2+nd.Tier()); i < zzn; i++ {
 		o := &common2.Output{Value: zzStAmount("outputValue"), ProgramHash: common.Uint168{0x21, 7}}
 		if nd.Bool("outputIsChange") {
 			o.ProgramHash = *dh
